@@ -609,8 +609,18 @@ package xpath
 //@   loop 1 invariant a.table != nil && a.iterator != nil
 //@   loop * invariant[cursor@C13] cur(t) == old(cur(t)) && pos(cur(t)) == old(pos(cur(t)))
 //@ func (*ancestorQuery).Select$1
-//@   props C15
+//@   props C15 C01
+//@   theory nav for C01
+//@   uses tree-depth tree-kinds tree-up
 //@   captures a != nil && node != nil
+//@   modifies heap(navpos), heap(C@*)
+//@   let S0 = pos(node)
+//@   let LO = ite(first && a.Self, 0, 1)
+//@   apply ancnStep(S0, 0)
+//@   ensures[next-matching-ancestor@C01] result != nil ==> result == node && !first && LO <= depth(S0) - depth(pos(node)) && pos(node) == ancn(S0, depth(S0) - depth(pos(node))) && predv(ref(a), pos(node)) && forall(m, Int, LO <= m && m < depth(S0) - depth(pos(node)) ==> !predv(ref(a), ancn(S0, m)))
+//@   ensures[no-more-ancestors@C01] result == nil ==> isroot(pos(node)) && pos(node) == ancn(S0, depth(S0) - depth(pos(node))) && forall(m, Int, LO <= m && m <= depth(S0) - depth(pos(node)) ==> !predv(ref(a), ancn(S0, m)))
+//@   loop 0 apply ancnUp(S0, depth(S0) - depth(pos(node)))
+//@   loop 0 invariant[climb@C01] !first && 0 <= depth(S0) - depth(pos(node)) && pos(node) == ancn(S0, depth(S0) - depth(pos(node))) && forall(m, Int, LO <= m && m <= depth(S0) - depth(pos(node)) ==> !predv(ref(a), ancn(S0, m)))
 //@ func (*attributeQuery).Select$1
 //@   props C15 C01 C12
 //@   theory nav for C01 C12
@@ -2259,6 +2269,8 @@ package xpath
 //@ axiom[tree-depth] forall(p, Pos, 0 <= depth(p) && depth(p) < 1073741824 && size(p) >= 1 && nch(p) >= 0 && isroot(p) == (depth(p) == 0), depth(p))
 //@ define walkerOK(level, p) = 0 <= level && level <= depth(p) && (level > 0 ==> kind(p) != 2 && !isroot(p))
 //@ instance sibOrder(q, i) = 1 <= i && i < nch(q) ==> pre(child(q, i + 1)) == pre(child(q, i)) + size(child(q, i))
+//@ axiom[tree-up] forall(p, Pos, !isroot(p) ==> depth(parent(p)) == depth(p) - 1, parent(p))
+//@ instance ancnUp(p, n) = n >= 0 ==> ancn(p, n + 1) == parent(ancn(p, n))
 //@ instance ancnStep(p, n) = (n == 0 ==> ancn(p, n) == p) && (n > 0 ==> ancn(p, n) == ancn(parent(p), n - 1))
 
 // ---------------------------------------------------------------------------
